@@ -46,6 +46,9 @@ var (
 )
 
 func sel(x, name string) *ast.SelectorExpr {
+	if locksOnly && x == "simrt" {
+		x = "simhook"
+	}
 	return &ast.SelectorExpr{X: ast.NewIdent(x), Sel: ast.NewIdent(name)}
 }
 
@@ -342,6 +345,10 @@ func rewriteRange(info *types.Info, r *ast.RangeStmt) {
 
 var noYieldBlocks = map[*ast.BlockStmt]bool{}
 
+// locksOnly: a dependency (bbolt) gets R1/R1b/R1c only: its locks cooperate with the scheduler, so that a task
+// waiting for one of them is seen as blocked instead of stalling the simulation; no yields, no other rewrites.
+var locksOnly bool
+
 func driverRowsInterface(pkg *packages.Package) *types.Interface {
 	imp := pkg.Imports["database/sql/driver"]
 	if imp == nil || imp.Types == nil {
@@ -373,8 +380,10 @@ func processFile(pkg *packages.Package, f *ast.File, path string) ([]byte, bool,
 	for _, c := range calls {
 		rewriteCall(info, c)
 	}
-	for _, r := range ranges {
-		rewriteRange(info, r)
+	if !locksOnly {
+		for _, r := range ranges {
+			rewriteRange(info, r)
+		}
 	}
 	// R2
 	skip := map[*ast.BlockStmt]bool{}
@@ -408,6 +417,9 @@ func processFile(pkg *packages.Package, f *ast.File, path string) ([]byte, bool,
 		}
 	}
 	ast.Inspect(f, func(n ast.Node) bool {
+		if locksOnly {
+			return false
+		}
 		switch b := n.(type) {
 		case *ast.SwitchStmt:
 			skip[b.Body] = true
@@ -445,12 +457,15 @@ func processFile(pkg *packages.Package, f *ast.File, path string) ([]byte, bool,
 	if !used {
 		var buf bytes.Buffer
 		_ = format.Node(&buf, fsetG, f)
-		used = strings.Contains(buf.String(), "simrt.")
+		used = strings.Contains(buf.String(), "simrt.") || strings.Contains(buf.String(), "simhook.")
 	}
 	if !used {
 		return nil, false, nil
 	}
 	imp := &ast.ImportSpec{Path: &ast.BasicLit{Kind: token.STRING, Value: `"verif/simrt"`}}
+	if locksOnly {
+		imp = &ast.ImportSpec{Name: ast.NewIdent("simhook"), Path: &ast.BasicLit{Kind: token.STRING, Value: `"verif/simrt/hook"`}}
+	}
 	f.Decls = append([]ast.Decl{&ast.GenDecl{Tok: token.IMPORT, Specs: []ast.Spec{imp}}}, f.Decls...)
 	// keep build constraints, drop the other comments (their positions are stale)
 	var keep []string
@@ -483,6 +498,7 @@ func main() {
 	root := flag.String("root", "", "scratch copy of the module to rewrite in place")
 	sitesOut := flag.String("sites", "", "write the yield-site table here")
 	cli := flag.String("cli", "cmd/updog", "package main (relative dir) to also emit as importable package verifcli")
+	deps := flag.String("deps", "", "comma-separated import paths of dependencies (replaced by copies below -root) whose locks are rewritten")
 	flag.Parse()
 	if *root == "" {
 		fmt.Fprintln(os.Stderr, "usage: instrument -root <dir>")
@@ -556,14 +572,50 @@ func main() {
 		}
 		_ = isCLI
 	}
+	if *deps != "" {
+		locksOnly = true
+		dpkgs, err := packages.Load(cfg, strings.Split(*deps, ",")...)
+		if err != nil {
+			fmt.Fprintln(os.Stderr, "instrument: load deps:", err)
+			os.Exit(2)
+		}
+		for _, p := range dpkgs {
+			for _, e := range p.Errors {
+				fmt.Fprintln(os.Stderr, "instrument: package error:", e)
+				os.Exit(2)
+			}
+			fsetG = p.Fset
+			for i, f := range p.Syntax {
+				path := p.CompiledGoFiles[i]
+				if !strings.HasPrefix(path, abs+string(filepath.Separator)) || strings.HasSuffix(path, "_test.go") {
+					continue
+				}
+				before := counts["R1_locks"] + counts["R1_once"] + counts["R1_cond"]
+				src, changed, err := processFile(p, f, path)
+				if err != nil {
+					fmt.Fprintln(os.Stderr, "instrument:", path, err)
+					os.Exit(2)
+				}
+				if changed {
+					if err := os.WriteFile(path, src, 0o644); err != nil {
+						fmt.Fprintln(os.Stderr, "instrument:", err)
+						os.Exit(2)
+					}
+					counts["deps_files"]++
+					counts["deps_lock_ops"] += counts["R1_locks"] + counts["R1_once"] + counts["R1_cond"] - before
+				}
+			}
+		}
+		locksOnly = false
+	}
 	counts["R2_yield_sites"] = len(sites)
 	counts["files"] = nfiles
 	if *sitesOut != "" {
 		b, _ := json.Marshal(map[string]any{"sites": sites, "counts": counts, "notes": notes})
 		_ = os.WriteFile(*sitesOut, b, 0o644)
 	}
-	fmt.Printf("instrument: %d files, %d yield sites, %d lock ops, %d once.Do, %d cond ops, %d go statements, %d bbolt.Open, %d map ranges (%d left native)\n",
-		nfiles, len(sites), counts["R1_locks"], counts["R1_once"], counts["R1_cond"], counts["R6_go"], counts["R3_boltopen"], counts["R5_maprange"], counts["R5_skipped"])
+	fmt.Printf("instrument: %d files, %d yield sites, %d lock/once/cond ops (of which %d in %d files of dependencies), %d go statements, %d bbolt.Open, %d map ranges (%d left native)\n",
+		nfiles, len(sites), counts["R1_locks"]+counts["R1_once"]+counts["R1_cond"], counts["deps_lock_ops"], counts["deps_files"], counts["R6_go"], counts["R3_boltopen"], counts["R5_maprange"], counts["R5_skipped"])
 	for _, n := range notes {
 		fmt.Println("instrument: note:", n)
 	}
